@@ -67,3 +67,114 @@ func RunFlood(seed int64, idx int) *Result {
 	cancel2()
 	return net.result("flood", idx, seed, desc)
 }
+
+// RunSyncStorm (C14, "UpdateState itself never blocks indefinitely while the loops run"): tens of thousands of UpdateState
+// calls with growing heights, back to back from two callers, next to junk consensus traffic and state readers on other
+// goroutines — every main-loop / worker hand-off and every lock shared by the two loops is taken thousands of times in
+// every relative timing. Each call must return (20 s watchdog per batch); afterwards the node works on a height above the
+// highest block.
+func RunSyncStorm(seed int64, idx int) *Result {
+	rng := rand.New(rand.NewSource(seed))
+	o := &Opts{N: 4, NoRouter: true}
+	net := NewNet(seed, o)
+	nd := net.Nodes[1+rng.Intn(3)]
+	total := 12000 + rng.Intn(6000)
+	desc := fmt.Sprintf("node %s, %d UpdateState calls from two callers, junk traffic and state readers alongside", nd.Id, total)
+	nd.Start()
+	nd.ML.UpdateState(nd.ctx, nil, nil)
+	stop := make(chan struct{})
+	for k := 0; k < 2; k++ { // readers of the observable state (what a host's monitoring does)
+		go func() {
+			for {
+				select {
+				case <-stop:
+					return
+				default:
+					nd.HV()
+					nd.ML.State().Height()
+				}
+			}
+		}()
+	}
+	go func() { // junk traffic through the main loop
+		i := 0
+		for {
+			select {
+			case <-stop:
+				return
+			default:
+				h, _ := nd.HV()
+				nd.ML.HandleConsensusMessage(nd.ctx, nd.ping.CreatePrepareMessage(primitives.BlockHeight(h), primitives.View(7000+i), []byte("junk")).ToConsensusRawMessage())
+				i++
+			}
+		}
+	}()
+	var next uint64 = 1
+	var highest uint64
+	progress := make(chan uint64, 1024)
+	for c := 0; c < 2; c++ {
+		go func() {
+			for {
+				h := atomic.AddUint64(&next, 1) - 1
+				if h > uint64(total) {
+					progress <- 0
+					return
+				}
+				nd.ML.UpdateState(nd.ctx, &spi.Blk{H: h, Body: "storm"}, nil)
+				for {
+					old := atomic.LoadUint64(&highest)
+					if h <= old || atomic.CompareAndSwapUint64(&highest, old, h) {
+						break
+					}
+				}
+				if h%64 == 0 {
+					progress <- h
+				}
+			}
+		}()
+	}
+	finished := 0
+	last := uint64(0)
+	wedged := false
+	for finished < 2 && !wedged {
+		select {
+		case h := <-progress:
+			if h == 0 {
+				finished++
+			} else {
+				last = h
+			}
+		case <-time.After(20 * time.Second):
+			wedged = true
+			hh, vv := uint64(0), uint64(0)
+			doneHV := make(chan [2]uint64, 1)
+			go func() { a, b := nd.HV(); doneHV <- [2]uint64{a, b} }()
+			select {
+			case x := <-doneHV:
+				hh, vv = x[0], x[1]
+			case <-time.After(2 * time.Second):
+			}
+			net.violate("C14", "update-state-blocks", "after about %d of %d back-to-back UpdateState calls no call has returned for 20 s while the loops run (node state read: height %d view %d)", last, total, hh, vv)
+		}
+	}
+	net.add("C14 UpdateState calls", int(atomic.LoadUint64(&highest)))
+	net.count("C14 sync storms judged")
+	close(stop)
+	if !wedged {
+		if nd.Witness(64) == 64 {
+			if h, _ := nd.HV(); h <= atomic.LoadUint64(&highest) {
+				net.violate("C14", "newest-sync-did-not-take-effect", "after a storm of UpdateState calls up to block %d (all returned nil) and 64 witnessed worker iterations the node is at height %d", atomic.LoadUint64(&highest), h)
+			}
+		} else {
+			net.count("inconclusive: worker iterations not witnessed")
+		}
+		nd.Cancel()
+		c2, cancel2 := context.WithTimeout(context.Background(), 20*time.Second)
+		nd.Waiter.WaitUntilShutdown(c2)
+		if c2.Err() != nil {
+			net.violate("C16", "wait-until-shutdown-did-not-return", "sync storm: WaitUntilShutdown blocked")
+		}
+		cancel2()
+	}
+	return net.result("syncstorm", idx, seed, desc)
+}
